@@ -102,6 +102,28 @@ Definition list_set_slice {A} (l : list A) (lo hi : Z) (xs : list A) : list A :=
   zfirstn lo l ++ xs ++ zskipn hi l.
 Definition list_del_slice {A} (l : list A) (lo hi : Z) : list A := zfirstn lo l ++ zskipn hi l.
 
+(* extended slices: slice(start, stop, step).indices(len) as in CPython's PySlice_AdjustIndices;
+   [xselected] = the position is one of range(len)[start:stop:step] *)
+Definition xnorm (n : Z) (b : option Z) (step : Z) (is_start : bool) : Z :=
+  match b with
+  | None => if step <? 0 then (if is_start then n - 1 else -1) else (if is_start then 0 else n)
+  | Some v =>
+      if v <? 0 then (let w := v + n in if w <? 0 then (if step <? 0 then -1 else 0) else w)
+      else if n <=? v then (if step <? 0 then n - 1 else n) else v
+  end.
+Definition xselected (n : Z) (a b : option Z) (step : Z) (p : Z) : bool :=
+  let start := xnorm n a step true in
+  let stop := xnorm n b step false in
+  if 0 <? step then (start <=? p) && (p <? stop) && ((p - start) mod step =? 0)
+  else (stop <? p) && (p <=? start) && ((start - p) mod (- step) =? 0).
+Definition zpositions {A} (l : list A) : list (Z * A) := combine (map Z.of_nat (seq 0 (length l))) l.
+Definition xsel {A} (l : list A) (a b : option Z) (step : Z) (q : Z * A) : bool :=
+  xselected (len l) a b step (fst q).
+Definition xdel {A} (l : list A) (a b : option Z) (step : Z) : list A :=
+  map snd (filter (fun q => negb (xsel l a b step q)) (zpositions l)).
+Definition xcount {A} (l : list A) (a b : option Z) (step : Z) : nat :=
+  length (filter (xsel l a b step) (zpositions l)).
+
 Fixpoint index_of (x : nat) (l : list nat) (pos : Z) : option Z :=
   match l with
   | [] => None
@@ -123,6 +145,7 @@ Inductive op : Type :=
 | SetSlice (start stop : option Z) (xs : list nat)   (* list or one-shot iterator argument *)
 | SetSliceBad (start stop : option Z)                 (* non-iterable right-hand side *)
 | DelSlice (start stop : option Z)
+| DelXSlice (start stop : option Z) (step : Z)      (* del l[start:stop:step], step <> 1 *)
 | SetList (xs : list nat)             (* owner.specific_asset_id = xs  (list or iterator) *)
 | SetType (t : bool)                  (* Entity only; plain attribute on AssetInformation is not modelled *)
 | SetGaid (g : garg).
@@ -169,6 +192,8 @@ Definition effect (o : owner) (s : st) (p : op) : err + (st * out) :=
   | SetList xs => inr (upd_items s xs, OK)        (* self._list[:] = xs *)
   | DelSlice start stop =>
       let '(lo, hi) := slice_bounds l start stop in inr (upd_items s (list_del_slice l lo hi), OK)
+  | DelXSlice start stop step =>                  (* range(len)[start:stop:0] raises ValueError before any hook *)
+      if step =? 0 then inl EValue else inr (upd_items s (xdel l start stop step), OK)
   | SetType t =>
       match o with
       | OEntity => inr (mkSt t (gaid s) l, OK)
@@ -203,6 +228,8 @@ Definition hooks (o : owner) (s : st) (p : op) : option err :=
   | SetList xs => set_hook o s (len l) (len l) (len xs)
   | DelSlice start stop =>
       let '(lo, hi) := slice_bounds l start stop in del_dry_run o s (len l) (Z.to_nat (hi - lo))
+  | DelXSlice start stop step =>                  (* the same dry run, highest selected index first *)
+      del_dry_run o s (len l) (xcount l start stop step)
   | SetType t => match o with OSem => None | _ => validate o t (gaid s) (nonempty l) end
   | SetGaid g =>
       match o with
